@@ -409,7 +409,7 @@ func argInfo(pc pcInfo, in []byte) (unpack string, extra string) {
 			toOk = 1
 		}
 		return "1", fmt.Sprintf(" toOk=%d denom=%s", toOk, hexOrDash(denom))
-	case "funtoken.sendToEvm":
+	case "funtoken.sendToEvm", "funtoken.getErc20Address":
 		denom, _ := args[0].(string)
 		return "1", fmt.Sprintf(" denom=%s", hexOrDash(denom))
 	case "oracle.queryExchangeRate", "oracle.chainLinkLatestRoundData":
@@ -513,7 +513,10 @@ func runPrecomp(r *hx.R, n int, w *hx.W, mode string) error {
 		},
 		strs: []string{deps.Sender.NibiruAddr.String(), proxyNibi.String(), deps.Sender.EthAddr.Hex(), proxy.Hex(), "", "nibi1invalid", "0x123",
 			strings.ToUpper(deps.Sender.NibiruAddr.String()), "cosmos1qqqqqqqqqqqqqqqqqqqqqqqqqqqqqqqqnrql8a", wasmC},
-		denoms: []string{"unibi", "ulog", "", "x", "ab\x00cd", "1abc", "UPPER!!", "tf/" + deps.Sender.NibiruAddr.String() + "/sub", "a b", strings.Repeat("d", 129), "erc20/" + erc20.Hex()},
+		denoms: []string{"unibi", "ulog", "", "x", "ab\x00cd", "1abc", "UPPER!!", "tf/" + deps.Sender.NibiruAddr.String() + "/sub", "a b", strings.Repeat("d", 129), "erc20/" + erc20.Hex(),
+			// shaped like a tokenfactory denom ("tf/<creator>/<subdenom>") but not a valid bank denom: a null character, a blank, a
+			// control character, an over-long subdenom — what only a per-section format check lets through
+			"tf/a/b\x00c", "tf/" + deps.Sender.NibiruAddr.String() + "/s\x00b", "tf/\x00/x", "tf/a/b c", "tf/a/\x07", "tf/a/" + strings.Repeat("s", 200), "tf/a/b/c", "tf//x"},
 		pairs:  []string{"unibi:uusd", "ubtc:uusd", "", "nopair", "a:b:c", "unibi:"},
 	}
 	base := deps.Ctx
